@@ -546,6 +546,10 @@ func runC01(a vh.Args, o *vh.Oracle, r *vh.Result) error {
 		if err := readJSON(a.Replay, &pc); err == nil && (len(pc.IDs) > 0 || len(pc.Seeds) > 0) {
 			return c01PlanOne(o, r, &pc)
 		}
+		var clc c01CLICase
+		if err := readJSON(a.Replay, &clc); err == nil && len(clc.Args) > 0 {
+			return c01CLIOne(a, r, os.Getenv("VH_DESYNC"), &clc)
+		}
 		var c c01Case
 		if err := readJSON(a.Replay, &c); err != nil {
 			return err
@@ -621,5 +625,12 @@ func runC01(a vh.Args, o *vh.Oracle, r *vh.Result) error {
 	if a.Tier == "thorough" {
 		nplan = 150000
 	}
-	return c01Plan(o, r, rng, nplan)
+	if err := c01Plan(o, r, rng, nplan); err != nil {
+		return err
+	}
+	ncli := 120
+	if a.Tier == "thorough" {
+		ncli = 3000
+	}
+	return c01CLI(a, r, rng, ncli)
 }
